@@ -69,6 +69,8 @@ func fileSets() map[string][]fileSpec {
 		"license-after-64k":  {{"NOTES", strings.Repeat("some unrelated line of notes that fills the file\n", 1330) + mit + "\n" + strings.Repeat("more unrelated lines behind the license text\n", 1600)}},
 		"latin1":          {{"LICENSE", "Copyright \xa9 2020 Foo GmbH, M\xfcnchen\n\n" + mit + "\nGr\xfc\xdfe\n"}},
 		"unlicensed":      {{"README", "just words, nothing else\nsecond line\n"}},
+		// copyright notices and date lines before, inside and - the last line with any words - after the license
+		"notice-positions": {{"head.txt", "Copyright 2019 First Holder\n" + mit}, {"tail.txt", mit + "\nCopyright 2020 Last Holder\n"}, {"date.txt", mit + "\n\n2020-01-02\n"}, {"tail-blank.txt", mit + "\nCopyright 2021 Somebody\n\n\n"}, {"both.txt", "2001-02-03\n" + bsd + "\nCopyright (c) 2022 Z\n"}},
 		// run with -ignore_paths_re '.*/AUTHORS' (a FILE pattern): only that file is left out, not what
 		// follows it in its directory
 		"ignore-authors": {{"proj/AUTHORS", "Copyright 2019 A. Uthor\n" + bsd}, {"proj/LICENSE", mit}, {"proj/NOTES.txt", "plain\n"}, {"proj/third_party/lib/COPYING", bsd}, {"proj/zeta/AUTHORS", "nobody\n"}, {"proj/zeta/LICENSE", mit}},
@@ -143,7 +145,7 @@ func c19CLI(c *vrep.Ctx) {
 	}
 	sort.Strings(names)
 	if !c.Thorough() {
-		names = []string{"licensed", "unlicensed", "nested", "crlf", "long-line-first", "header-only", "copyright-only", "no-trailing-nl", "identical-twins", "crowd", "latin1", "big-no-trailing-nl", "license-after-64k", "ignore-authors"}
+		names = []string{"licensed", "unlicensed", "nested", "crlf", "long-line-first", "header-only", "copyright-only", "no-trailing-nl", "identical-twins", "crowd", "latin1", "big-no-trailing-nl", "license-after-64k", "ignore-authors", "notice-positions"}
 	}
 	taskMenu := []string{"1", "2", "16", "default"}
 	c.R.Rule = fmt.Sprintf("the real identify_license binary built from the current tree, over %d file sets (licensed, unlicensed, nested directories, no trailing newline, CRLF, a 70 000-character line, empty file, header-only, copyright-only, two licenses in one file, many files, 1100 files, a tree run with -ignore_paths_re for one file name) x {-headers} x {plain, -json -include_text} x -tasks %v: stdout lines (as a multiset), JSON Text (= lines StartLine..EndLine of the file) and exit status compared with in-process DefaultClassifier().Match on the file bytes; quick tier samples the flag combinations round-robin, thorough runs all; non-trivial = runs that reported at least one line", len(names), taskMenu)
